@@ -181,9 +181,16 @@ def rand_value(rng, pool_in, pool_edge, pool_bad):
     return rng.choice(pool_in if x < 0.7 else pool_edge if x < 0.9 else pool_bad)
 
 
-def random_seq(rng):
+# binary64 values that are NOT short dyadic numbers: the exact value of the float is sent to the model, the float
+# arithmetic of ramp() then differs from the rational one in the last ulp ("to float rounding")
+DECIMALS = [Fr(x) for x in (0.1, 0.2, 0.3, 0.7, -0.9, -0.1, 1 / 3, 0.05, -0.35)]
+
+
+def random_seq(rng, decimal=False):
     n = rng.randint(3, 15)
     sp_in = [Fr(k, 8) for k in range(-8, 9)] + [Fr(k, 64) for k in (-63, -1, 1, 63)]
+    if decimal:
+        sp_in = DECIMALS + [Fr(0), Fr(1), Fr(-1)]
     sp_edge = [-2, Fr(-1), Fr(1), 2, -EPS, EPS, 0, Fr(0), True, False, Fr(5, 4), Fr(-9, 8)]
     sp_bad = [None]
     du_in = [0, 20, 100, Fr(5, 2), 1, 40, Fr(1, 4), 1000]
@@ -232,6 +239,8 @@ def generate(ctx):
                     cases.append(("pairs", ("motor", PINS, pre + [a, b])))
     for _ in range(8000 if thorough else 700):
         cases.append(("random", ("motor", PINS, random_seq(rng))))
+    for _ in range(3000 if thorough else 300):
+        cases.append(("random-decimal", ("motor", PINS, random_seq(rng, decimal=True))))
     return cases
 
 
@@ -253,6 +262,72 @@ def specials_cases():
     return cases
 
 
+X_KINDS = ["ValueError", "TypeError", "OverflowError"]
+
+
+def x_stream(ctx, st):
+    """Host/ActuatorsX.v (xclamp, run_for_x, ramp_x) vs the real class on floats that may be IEEE specials, with the real
+    Reduino.Utils.sleep validation active (correspondence only: this stream contains the witnesses of the two listed findings)"""
+    if not ctx.exes.get(UNIT):
+        return 0
+    n_dis = 0
+
+    def bad(what, case, mo, io):
+        nonlocal n_dis
+        n_dis += 1
+        if n_dis <= 5:
+            ctx.disagree("motor: " + what, S.replayable(case), mo, io)
+
+    # (a) _clamp_speed
+    xs = [NAN, INF, -INF] + [Fr(k, 4) for k in range(-9, 10)] + [Fr(1) + EPS, Fr(-1) - EPS, Fr(1 << 40), Fr(-(1 << 40))]
+    cases = [("motor", PINS, [("_clamp_speed", x)]) for x in xs]
+    impl = S.run_impl("motor", cases, real_sleep=True)
+    model = ctx.model([[2, S.WX(x)] for x in xs], unit=UNIT)
+    for case, m, r in zip(cases, model, impl):
+        rs = r["steps"][0]
+        got = S.i_val(rs["ret"]) if rs["res"] == "ok" else ("raise", rs["ret"])
+        if not S.same(S.m_x(m), got):
+            bad("_clamp_speed on a float with IEEE specials", case, S.m_x(m), got)
+    n = len(cases)
+    # (b) run_for / ramp with a possibly special duration, after a few prefixes
+    durs = [NAN, INF, -INF, Fr(20), Fr(0), Fr(-1), Fr(5, 2), Fr(1, 1024)]
+    sps = [H, -2, 0, None, True, Fr(-1, 8)]
+    pres = [[], [("set_speed", H)], [("invert",), ("set_speed", -H)], [("set_speed", H), ("stop",)], [("ramp", Fr(1), 20), ("invert",)]]
+    cases, wires = [], []
+    for pre in pres:
+        wpre = [[S.MOTOR_OPS[o[0]]] + [S.W(a) for a in o[1:]] for o in pre]
+        for d in durs:
+            for v in sps:
+                cases.append(("motor", PINS, pre + [("run_for", d, v)]))
+                wires.append([3, [S.W(a) for a in PINS], wpre, [0, S.WX(d), S.W(v)]])
+                cases.append(("motor", PINS, pre + [("ramp", v, d)]))
+                wires.append([3, [S.W(a) for a in PINS], wpre, [1, S.W(v), S.WX(d)]])
+    impl = S.run_impl("motor", cases, real_sleep=True)
+    model = ctx.model(wires, unit=UNIT)
+    for case, m, r in zip(cases, model, impl):
+        if m == [2]:
+            bad("model could not decode the special-duration case (harness bug)", case, m, None)
+            continue
+        rs = r["steps"][-1]
+        want = "ok" if m[2][0] == 0 else X_KINDS[m[2][1]]
+        got = "ok" if rs["res"] == "ok" else rs["ret"]
+        st.bump(st.outcomes, "motor." + case[2][-1][0] + "[special-duration]:" + got)
+        if want != got:
+            bad("outcome of a call with a possibly special duration", case, want, got)
+            continue
+        msnap = S.m_motor_snap(m[0])
+        isnap = {k: S.i_val(v) for k, v in rs["snap"].items()}
+        diff = [k for k in msnap if not S.same(msnap[k], isnap.get(k, ("?",)))]
+        if diff or set(msnap) != set(isnap):
+            bad(f"attributes {diff} after a call with a possibly special duration", case, msnap, isnap)
+            continue
+        mev, iev = S.m_events("motor", m[1]), S.i_events(rs["events"])
+        if len(mev) != len(iev) or any(not (a[0] == b[0] and len(a) == len(b) and all(S.same(x, y) for x, y in zip(a[1:], b[1:])))
+                                       for a, b in zip(mev, iev)):
+            bad("events of a call with a possibly special duration", case, mev, iev)
+    return n + len(cases)
+
+
 # --------------------------------------------------------------------------
 # entry points
 # --------------------------------------------------------------------------
@@ -269,6 +344,7 @@ def replay_findings(ctx):
 
 def run_unit(ctx: C.Ctx) -> dict:
     st = S.Stats()
+    n_fail0 = len(ctx.failures)
     stream_cases = generate(ctx)
     cases = [c for _, c in stream_cases]
     for s, _ in stream_cases:
@@ -288,11 +364,15 @@ def run_unit(ctx: C.Ctx) -> dict:
     for case, r in zip(spec, S.run_impl("motor", spec, real_sleep=True)):
         n_spec += len(r["steps"])
         oracle(ctx, st, case, r, safety_only=True)
+    n_x = x_stream(ctx, st)
     replay_findings(ctx)
+    # report the shortest failing history of each class first (ctx.finish keeps the first per key)
+    ctx.failures[n_fail0:] = sorted(ctx.failures[n_fail0:], key=lambda f: len(f["case"]["calls"]))
 
     samples = [S.show_case(cases[i]) for i in (0, len(cases) // 3, len(cases) // 2, len(cases) - 1)]
     dist = S.distribution(st)
     dist["specials_stream_ops_implementation_only"] = n_spec
+    dist["calls_with_ieee_special_floats_compared_with_model"] = n_x
     return {
         "unit": UNIT,
         "evaluations": st.steps,
@@ -300,7 +380,7 @@ def run_unit(ctx: C.Ctx) -> dict:
         "rule": ("DCMotor: constructor table (%d pin triples: ints, bools equal to ints, floats, None, duplicates) + every op of the full alphabet "
                  "(%d ops: speeds -2,-1,-1/2,-1/1024,0,1/1024,1/2,1,2,None,True x durations -1,0,20,100,5/2,None,True) followed by invert;invert from 10 "
                  "seed states + exhaustive pairs (quick: %dx%d, thorough: %dx%d and %dx%d) from the same seeds + seeded random histories (3-15 ops; 70%% in "
-                 "range, 20%% boundary, 10%% invalid). evaluations = method calls executed on the real objects and compared field by field with the model; "
+                 "range, 20%% boundary, 10%% invalid; a second stream draws speeds from non-dyadic binary64 values such as 0.1, 0.3, 1/3). evaluations = method calls executed on the real objects and compared field by field with the model; "
                  "distinct non-trivial = distinct (full state before, call) with a non-getter call that raised, changed state or emitted events."
                  % (len(CTORS), len(FULL), len(QUICK), len(QUICK), len(QUICK), len(FULL), len(FULL), len(QUICK))),
         "samples": samples,
